@@ -5,6 +5,17 @@ detection record (detect.json, tools/detect_seeds.py). Only confirmed changes ar
 import glob, json, os, re, shutil
 
 ROOT = "/verif/seeded"
+# why a confirmed change is caught by no check: each falls in a declared "outside" of its property (DESIGN.md section 4)
+REASONS = {
+    "C03-2": "outside: batch verification (the obligation did not terminate on the smallest curve)",
+    "C06-3": "outside: BIP21 text (urllib / regex on symbolic text)",
+    "C13-2": "outside: Electrum NFKD / case folding (Unicode text)",
+    "C18-2": "outside: Decimal arithmetic (C code the engine cannot enter)",
+    "C18-5": "outside: psbt_size estimate tables (the signed size needs real signatures)",
+    "C19-1": "outside: descriptor text parser / recursion depth",
+    "C20-3": "outside: thread interleavings",
+    "C07-6": "outside: SLIP132 version tables (a concrete table, nothing for a solver to decide)",
+}
 
 
 def sections(notes):
@@ -73,7 +84,7 @@ def main():
     rows.sort(key=lambda m: (m["property"], int(m["seed"].split("-")[1])))
     lines = ["# Seeded changes and which check catches them", "",
              "Generated by `tools/curate_seeds.py` from the per-seed `meta.json`. Apply with `git -C /repo apply /verif/seeded/<id>/patch.diff`, undo with `git -C /repo checkout -- .`.",
-             "Every change listed compiles, passes the repository's unedited test suite (no new failure) and makes its demonstration fail.", "",
+             "Every change listed compiles, passes the repository's unedited test suite (no new failure) and makes its demonstration fail. Seeds 1-3 of a property are the first round, 4-6 later rounds (fresh sub-agents told to avoid the most obvious site).", "",
              "| seed | file | change | caught by quick check | obligations reporting |", "|---|---|---|---|---|"]
     for m in rows:
         det = m["detection"]
@@ -85,7 +96,7 @@ def main():
             obs = ", ".join(sorted({o for c in det["caught_by"] for o in c["obligations"]}))[:160]
         elif det["runs"]:
             how = "**missed**"
-            obs = ""
+            obs = REASONS.get(m["seed"], "")
         else:
             how = "not run"
             obs = ""
